@@ -78,6 +78,7 @@ type TermCtx struct {
 	ufList []string
 	fresh  map[string]int
 	Axioms []*Term // facts about the initial heap, assumed in every obligation
+	bridgeSeen map[int]bool
 }
 
 type UFDecl struct {
@@ -87,7 +88,7 @@ type UFDecl struct {
 }
 
 func NewTermCtx() *TermCtx {
-	return &TermCtx{tab: map[string]*Term{}, decls: map[string]*Term{}, ufs: map[string]*UFDecl{}, fresh: map[string]int{}}
+	return &TermCtx{tab: map[string]*Term{}, decls: map[string]*Term{}, ufs: map[string]*UFDecl{}, fresh: map[string]int{}, bridgeSeen: map[int]bool{}}
 }
 
 func (c *TermCtx) mk(t *Term) *Term {
@@ -657,9 +658,12 @@ func (c *TermCtx) intBin(op string, a, b *Term) *Term {
 		if a.IsConst() && !b.IsConst() {
 			a, b = b, a
 		}
-		// (x - y) + y -> x
+		// (x - y) + y -> x ; y + (x - y) -> x
 		if a.Op == "-" && a.Args[1] == b {
 			return a.Args[0]
+		}
+		if b.Op == "-" && b.Args[1] == a {
+			return b.Args[0]
 		}
 	}
 	if op == "+" && a.IsConst() && a.Val.Sign() == 0 {
@@ -699,7 +703,13 @@ func (c *TermCtx) BV2Nat(a *Term) *Term {
 	if a.Op == "zero_extend" {
 		return c.BV2Nat(a.Args[0])
 	}
-	return c.mk(&Term{Op: "bv2nat", Args: []*Term{a}, Sort: IntSort})
+	t := c.mk(&Term{Op: "bv2nat", Args: []*Term{a}, Sort: IntSort})
+	if !t.open && !c.bridgeSeen[t.id] {
+		// range fact for the bridge term (stated explicitly; solvers differ in how eagerly they derive it)
+		c.bridgeSeen[t.id] = true
+		c.Axioms = append(c.Axioms, c.ILe(c.Inti(0), t), c.ILt(t, c.Int(new(big.Int).Lsh(big.NewInt(1), uint(a.Sort.W)))))
+	}
+	return t
 }
 
 func (c *TermCtx) Int2BV(a *Term, w int) *Term {
@@ -712,7 +722,22 @@ func (c *TermCtx) Int2BV(a *Term, w int) *Term {
 	if a.Op == "bv2nat" && a.Args[0].Sort.W < w {
 		return c.ZeroExt(a.Args[0], w)
 	}
-	return c.mk(&Term{Op: "int2bv", Args: []*Term{a}, P1: w, Sort: BVSort(w)})
+	t := c.mk(&Term{Op: "int2bv", Args: []*Term{a}, P1: w, Sort: BVSort(w)})
+	if !t.open && !c.bridgeSeen[t.id] {
+		// 0 <= x < 2^w ==> bv2nat(int2bv_w(x)) == x
+		c.bridgeSeen[t.id] = true
+		lim := c.Int(new(big.Int).Lsh(big.NewInt(1), uint(w)))
+		back := c.mk(&Term{Op: "bv2nat", Args: []*Term{t}, Sort: IntSort})
+		c.Axioms = append(c.Axioms, c.Implies(c.And(c.ILe(c.Inti(0), a), c.ILt(a, lim)), c.Eq(back, a)))
+		// small values have zero high bits
+		for _, k := range []int{8, 16, 32} {
+			if k < w {
+				small := c.Int(new(big.Int).Lsh(big.NewInt(1), uint(k)))
+				c.Axioms = append(c.Axioms, c.Implies(c.And(c.ILe(c.Inti(0), a), c.ILt(a, small)), c.Eq(c.Extract(w-1, k, t), c.BVu(0, w-k))))
+			}
+		}
+	}
+	return t
 }
 
 // ---- arrays
